@@ -111,9 +111,14 @@ def _zb(f):
     return z3.BoolVal(f) if isinstance(f, bool) else f
 
 
+def allocate_pre(S, self, amount, update):
+    m = S.get(self, "multiplier")
+    return [("multiplier-nonzero", And(Not(isnan(m)), ne(m, 0)))]
+
+
 def allocate_contract():
     return RelationalContract(
-        "bt.core.SecurityBase.allocate", [("amount", "float"), ("update", "bool")], apply_allocate, self_cls="SecurityBase",
+        "bt.core.SecurityBase.allocate", [("amount", "float"), ("update", "bool")], apply_allocate, pre=allocate_pre, self_cls="SecurityBase",
         note="allocate == [update]; transact(q*) with q* characterised by C05's clauses",
     )
 
@@ -150,6 +155,8 @@ def verify_allocate(ex, contract, timeout_ms=30000):
         fr.source_hash = fi.source_hash()
         st0, recv, args = entry_state(ex, contract)
         amount, update = args
+        for (pid, f) in contract.pre(SpecState(st0.heap), recv, args):
+            st0.assume(_zb(f))
         # state after the catch-up update (spec), from the entry heap
         Su = SpecState(st0.heap.copy())
         with Su.when(needs_update(Su, recv)):
